@@ -809,6 +809,9 @@ func (b *BootGuard) CreateIBBDigest(biosFilepath string) error {
 func (b *BootGuard) BPMCryptoSecure() (bool, error) {
 	switch b.Version {
 	case bgheader.Version10:
+		if len(b.VData.BGbpm.SE) == 0 {
+			return false, fmt.Errorf("bpm has no SE element")
+		}
 		hash := b.VData.BGbpm.SE[0].Digest.HashAlg
 		if hash == bg.AlgSHA1 || hash.IsNull() {
 			return false, fmt.Errorf("signed IBB hash in BPM uses insecure hash algorithm SHA1/Null")
@@ -818,6 +821,9 @@ func (b *BootGuard) BPMCryptoSecure() (bool, error) {
 			return false, fmt.Errorf("BPM signature uses insecure hash algorithm SHA1/Null")
 		}
 	case bgheader.Version20:
+		if len(b.VData.CBNTbpm.SE) == 0 {
+			return false, fmt.Errorf("bpm has no SE element")
+		}
 		for _, hash := range b.VData.CBNTbpm.SE[0].DigestList.List {
 			if hash.HashAlg == cbnt.AlgSHA1 || hash.HashAlg.IsNull() {
 				if b.VData.CBNTbpm.SE[0].DigestList.Size < 2 {
@@ -909,6 +915,9 @@ func (b *BootGuard) BPMKeyMatchKMHash() (bool, error) {
 func (b *BootGuard) StrictSaneBPMSecurityProps() (bool, error) {
 	switch b.Version {
 	case bgheader.Version10:
+		if len(b.VData.BGbpm.SE) == 0 {
+			return false, fmt.Errorf("bpm has no SE element")
+		}
 		flags := b.VData.BGbpm.SE[0].Flags
 		if !flags.AuthorityMeasure() {
 			return false, fmt.Errorf("pcr-7 data should extended for OS security")
@@ -917,6 +926,12 @@ func (b *BootGuard) StrictSaneBPMSecurityProps() (bool, error) {
 			return false, fmt.Errorf("tpm failure should lead to default measurements from PCR0 to PCR7")
 		}
 	case bgheader.Version20:
+		if len(b.VData.CBNTbpm.SE) == 0 {
+			return false, fmt.Errorf("bpm has no SE element")
+		}
+		if b.VData.CBNTbpm.TXTE == nil {
+			return false, fmt.Errorf("bpm has no TXT element")
+		}
 		bgFlags := b.VData.CBNTbpm.SE[0].Flags
 		if !bgFlags.AuthorityMeasure() {
 			return false, fmt.Errorf("pcr-7 data should extended for OS security")
@@ -937,6 +952,9 @@ func (b *BootGuard) StrictSaneBPMSecurityProps() (bool, error) {
 func (b *BootGuard) SaneBPMSecurityProps() (bool, error) {
 	switch b.Version {
 	case bgheader.Version10:
+		if len(b.VData.BGbpm.SE) == 0 {
+			return false, fmt.Errorf("bpm has no SE element")
+		}
 		flags := b.VData.BGbpm.SE[0].Flags
 		if !flags.DMAProtection() {
 			return false, fmt.Errorf("dma protection should be enabled for bootguard")
@@ -951,6 +969,12 @@ func (b *BootGuard) SaneBPMSecurityProps() (bool, error) {
 			return false, fmt.Errorf("no ibb segments measured")
 		}
 	case bgheader.Version20:
+		if len(b.VData.CBNTbpm.SE) == 0 {
+			return false, fmt.Errorf("bpm has no SE element")
+		}
+		if b.VData.CBNTbpm.TXTE == nil {
+			return false, fmt.Errorf("bpm has no TXT element")
+		}
 		bgFlags := b.VData.CBNTbpm.SE[0].Flags
 		if !bgFlags.DMAProtection() {
 			if b.VData.CBNTbpm.SE[0].DMAProtBase0 == 0 && b.VData.CBNTbpm.SE[0].VTdBAR == 0 {
